@@ -1178,7 +1178,7 @@ def run_hist(ck):
                             "push whose body is malformed after its streams, push whose body stays open while other steps run and is completed or continued malformed later in any order, cache reset) "
                             "with scripted outcomes of the series and the samples insert; histories of 3..12 steps around requests above 1 MiB (a stream with a log line of 1.1 MB makes onEntries hand over the chunk collected so far while the body stays open: "
                             "begin + flush, further streams - often the same series again - with or without another flush, end or malformed continuation, each chunk's two inserts with their own scripted outcomes, "
-                            "ordinary pushes of the same series in between, up to two such requests open at once, the whole long request sent again, resets), 24 histories enumerated over (2..3 pushes that arrive while the time_series INSERT of a first push is waiting for ClickHouse and announce the same new series / a chain of series neighbours have in common / two series one of which the waiting INSERT carries too; outcome of the waiting INSERT; outcome of the shared INSERT) with a samples failure here and there, before them sometimes a failed or a successful announcement of the series, after them every client again (pushes, or another group; sometimes a reset first), 30 histories enumerated over (2..4 chunks each announcing series of its own, the failing chunk, its failing insert: series / samples / both, or every series insert failing) followed by the client's second attempt (the long request again, its streams as one push, or chunk by chunk), plus 36 two-series histories whose announcement keys agree on the low / middle / high 32 bits, run through the in-process writer built by the production wiring (plugin.CreateStaticServiceRegistry: real GoCache and serializer); non-trivial = at least 2 pushes, distinct by content. ")
+                            "ordinary pushes of the same series in between, up to two such requests open at once, the whole long request sent again, resets), 32 histories enumerated over (2..3 pushes that arrive while the time_series INSERT of a first push is waiting for ClickHouse and announce the same new series / a chain of series neighbours have in common / two series one of which the waiting INSERT carries too / the same series on different days and with different sample types; outcome of the waiting INSERT; outcome of the shared INSERT) with a samples failure here and there, before them sometimes a failed or a successful announcement of the series, after them every client again (pushes, or another group; sometimes a reset first), 30 histories enumerated over (2..4 chunks each announcing series of its own, the failing chunk, its failing insert: series / samples / both, or every series insert failing) followed by the client's second attempt (the long request again, its streams as one push, or chunk by chunk), plus 36 two-series histories whose announcement keys agree on the low / middle / high 32 bits, run through the in-process writer built by the production wiring (plugin.CreateStaticServiceRegistry: real GoCache and serializer); non-trivial = at least 2 pushes, distinct by content. ")
     ck.extra["hist_input_classes"] = hist
     ck.extra["hist_step_kinds"] = kinds
     nover = sum(1 for c in cases if c["class"].startswith("overlap"))
